@@ -43,6 +43,8 @@ Decls ==
     ufloatNonDyadic  |-> {L("UfloatNonDyadic", "FLOAT", "1/10")},                            \* 0.1
     urune            |-> {L("Urune", "CHAR", "120")},                                        \* 'x'
     ustring          |-> {L("Ustring", "STRING", "a\"b\\c\td")},
+    ustringLong      |-> {L("UstringLong", "STRING", "the quick brown fox jumps over the lazy dog, then does it again, and again, until \"more than\" seventy-two characters are used")},   \* longer than the 72 characters constant.Value.String() keeps
+    ufloatTiny       |-> {L("UfloatTiny", "FLOAT", "1/1267650600228229401496703205376")},    \* 1.0 / (1 << 100)
     ubool            |-> {V("Ubool")},
     ucomplex         |-> {V("Ucomplex")},
     typedConst       |-> {V("TypedInt8"), V("TypedStr"), V("TypedFloat"), T("MyStr")},
@@ -80,7 +82,7 @@ Decls ==
 Kinds == DOMAIN Decls
 \* a fixed order of the kinds: point (x, y) of the 7 x 7 grid is KindSeq[7x + y + 1]
 KindSeq == << "uintSmall", "uintHuge", "uintNeg", "ufloatDyadic", "ufloatWhole", "ufloatBig", "ufloatNonDyadic",
-              "urune", "ustring", "ubool", "ucomplex", "typedConst", "typedEnum", "varPlain",
+              "urune", "ustring", "ustringLong", "ufloatTiny", "ubool", "ucomplex", "typedConst", "typedEnum", "varPlain",
               "varFunc", "varIface", "funcPlain", "funcVariadic", "funcNamedRes", "funcFuncParam", "genericFunc",
               "genericType", "structType", "ifaceSimple", "ifaceEmbed", "ifaceEmbedExt", "ifaceUnexported", "ifaceVariadic",
               "ifaceUnnamed", "ifaceLocalType", "ifaceExtSig", "ifaceEmpty", "ifaceString", "ifaceFuncTypes", "constraintOnly",
